@@ -103,6 +103,90 @@ def fact_put_clears_ref(repo):
         return None
 
 
+def _cls_fn(repo, file, cls, fn):
+    c = _find_class(_parse(repo, file), cls)
+    return _find_func(c, fn) if c is not None else None
+
+
+def fact_rd_is_file(repo):
+    """_FilesystemDataSource.exists_nonversioned: `result = path.is_file()` (True) or `path.exists()` (False)"""
+    try:
+        fn = _cls_fn(repo, "storage_filesystem.py", "_FilesystemDataSource", "exists_nonversioned")
+        found = []
+        for n in ast.walk(fn):
+            if isinstance(n, ast.Assign) and isinstance(n.value, ast.Call) and isinstance(n.value.func, ast.Attribute) \
+                    and isinstance(n.value.func.value, ast.Name) and n.value.func.value.id == "path":
+                found.append(n.value.func.attr)
+        if found == ["is_file"]:
+            return True
+        if found == ["exists"]:
+            return False
+        return None
+    except Exception:
+        return None
+
+
+def _stmt_index(body, pred):
+    for i, st in enumerate(body):
+        if pred(st):
+            return i
+    return None
+
+
+def fact_obj_first(repo):
+    """_FilesystemDataSource.output: the `with versioned_path.open(mode="wb")` block precedes the
+    call of _write_non_versioned_link"""
+    try:
+        fn = _cls_fn(repo, "storage_filesystem.py", "_FilesystemDataSource", "output")
+
+        def is_obj(st):
+            return isinstance(st, ast.With) and any(
+                isinstance(it.context_expr, ast.Call) and isinstance(it.context_expr.func, ast.Attribute)
+                and it.context_expr.func.attr == "open" for it in st.items)
+
+        def is_link(st):
+            return isinstance(st, ast.Expr) and isinstance(st.value, ast.Call) and \
+                isinstance(st.value.func, ast.Attribute) and st.value.func.attr == "_write_non_versioned_link"
+        a, b = _stmt_index(fn.body, is_obj), _stmt_index(fn.body, is_link)
+        if a is None or b is None:
+            return None
+        return a < b
+    except Exception:
+        return None
+
+
+def fact_data_first(repo):
+    """StorageBackendBase.memoize: codec.store(...) precedes _metadata_source.put_memento(...)"""
+    try:
+        fn = _cls_fn(repo, "storage_base.py", "StorageBackendBase", "memoize")
+
+        def calls_attr(st, attr):
+            return any(isinstance(n, ast.Call) and isinstance(n.func, ast.Attribute) and n.func.attr == attr
+                       for n in ast.walk(st))
+        a = _stmt_index(fn.body, lambda st: calls_attr(st, "store"))
+        b = _stmt_index(fn.body, lambda st: calls_attr(st, "put_memento"))
+        if a is None or b is None:
+            return None
+        return a < b
+    except Exception:
+        return None
+
+
+def fact_atomic_links(repo):
+    """_write_non_versioned_link: writes through a temporary name + os.replace/os.rename (True) or opens the
+    link file in place (False)"""
+    try:
+        fn = _cls_fn(repo, "storage_filesystem.py", "_FilesystemDataSource", "_write_non_versioned_link")
+        names = _calls(fn)
+        if "replace" in names or "rename" in names:
+            return True
+        if "open" in names:
+            return False
+        return None
+    except Exception:
+        return None
+
+
 FACTS = []
 
 
@@ -121,6 +205,26 @@ def _f1(repo):
 @fact("put_clears_ref", "option bool")
 def _f2(repo):
     return _opt_bool(fact_put_clears_ref(repo))
+
+
+@fact("rd_is_file_fact", "option bool")
+def _f3(repo):
+    return _opt_bool(fact_rd_is_file(repo))
+
+
+@fact("obj_first_fact", "option bool")
+def _f4(repo):
+    return _opt_bool(fact_obj_first(repo))
+
+
+@fact("data_first_fact", "option bool")
+def _f5(repo):
+    return _opt_bool(fact_data_first(repo))
+
+
+@fact("atomic_links_fact", "option bool")
+def _f6(repo):
+    return _opt_bool(fact_atomic_links(repo))
 
 
 def generate(repo):
